@@ -198,6 +198,10 @@ func main() {
 		runC06(w, *seed, *maxLen, *n)
 		return
 	}
+	if *mode == "api" {
+		runAPI(w, *seed, *n, *depth)
+		return
+	}
 	if *mode == "c01" {
 		runC01(w, *seed, *n)
 		return
